@@ -28,6 +28,23 @@ MUTS = ["none", "delete-a", "edit-a-uncached", "edit-a-cached", "add-untracked",
 OTHERS = ["none", "hardlink", "symlink"]
 
 
+class LogIgnore:
+    """An Ignore implementation (the interface of dvc_data.hashfile._ignore): hides *.log files and scratch/."""
+
+    def walk(self, fs, path, **kwargs):
+        for root, dirs, files in fs.walk(path, **kwargs):
+            dirs[:] = [d for d in dirs if d != "scratch"]
+            yield root, dirs, [f for f in files if not f.endswith(".log")]
+
+    def find(self, fs, path):
+        for root, _dirs, files in self.walk(fs, path):
+            for name in files:
+                yield f"{root}{fs.sep}{name}"
+
+
+IGNORED = {"run.log": b"log line\n", "s/debug.log": b"more log\n", "scratch/notes.txt": b"my notes"}
+
+
 def types_of(l):
     return ["reflink", "copy"] if l == "default" else [l]
 
@@ -47,11 +64,18 @@ def one_exec(cfg):
             fill_cache(odb, ["A", "B"], extra=["x", "y", "e"])
             cache0 = {k: v[0] for k, v in store_snapshot(odb.path).items() if isinstance(k, str)}
             ws = w.p("ws")
+            env = cfg.get("env", "plain")
+            single0 = cfg["t0"] not in TREES
+            wsa = ws + os.sep if env == "trail" and not single0 else ws   # the same directory, other spelling
+            ckw = {"ignore": LogIgnore()} if env == "ignore" and not single0 else {}
             if cfg["other"] != "none":
                 odb.cache_types = [cfg["other"]]
                 checkout(w.p("ws_other"), LFS, load_obj(odb, cfg["t0"]), odb, force=True, state=state)
             odb.cache_types = types_of(cfg["l1"])
-            checkout(ws, LFS, load_obj(odb, cfg["t0"]), odb, force=True, state=state)
+            checkout(wsa, LFS, load_obj(odb, cfg["t0"]), odb, force=True, state=state, **ckw)
+            if ckw:
+                for rel, data in IGNORED.items():
+                    write_file(os.path.join(ws, *rel.split("/")), data)
             # user mutation (kind-preserving)
             single = cfg["t0"] not in TREES
             pa = ws if single else os.path.join(ws, "a")
@@ -73,8 +97,10 @@ def one_exec(cfg):
             odb.cache_types = types_of(cfg["l2"])
             target = load_obj(odb, cfg["t1"])
             want = want_files(cfg["t1"])
+            if ckw:
+                want = dict(want, **IGNORED)   # what the filter hides is not checkout's business
             try:
-                checkout(ws, LFS, target, odb, force=True, state=state)
+                checkout(wsa, LFS, target, odb, force=True, state=state, **ckw)
             except Exception as e:  # noqa: BLE001
                 viol.append((f"forced-checkout-raises-{type(e).__name__}", repr(e)))
                 return viol, info
@@ -87,7 +113,7 @@ def one_exec(cfg):
             # phase 3: second checkout has nothing to do
             before = lstat_map(ws)
             target = load_obj(odb, cfg["t1"])
-            r2 = checkout(ws, LFS, target, odb, force=True, state=state)
+            r2 = checkout(wsa, LFS, target, odb, force=True, state=state, **ckw)
             after = lstat_map(ws)
             if r2:
                 viol.append(("second-checkout-reports-work", f"returned {r2!r}"))
@@ -97,7 +123,7 @@ def one_exec(cfg):
             # phase 4: relinking checkout makes every file the configured link type
             target = load_obj(odb, cfg["t1"])
             try:
-                checkout(ws, LFS, target, odb, force=True, relink=True, state=state)
+                checkout(wsa, LFS, target, odb, force=True, relink=True, state=state, **ckw)
             except Exception as e:  # noqa: BLE001
                 viol.append((f"relink-checkout-raises-{type(e).__name__}", repr(e)))
                 return viol, info
@@ -120,7 +146,7 @@ def one_exec(cfg):
                 odb.cache_types = [l3]
                 target = load_obj(odb, cfg["t1"])
                 try:
-                    checkout(ws, LFS, target, odb, force=True, relink=True, state=state)
+                    checkout(wsa, LFS, target, odb, force=True, relink=True, state=state, **ckw)
                 except Exception as e:  # noqa: BLE001
                     viol.append((f"relink-checkout-raises-{type(e).__name__}", repr(e)))
                     return viol, info
@@ -149,7 +175,7 @@ def one_exec(cfg):
             if state is not None:
                 rel = os.path.relpath(ws, w.root)
                 rec = state.links.get(rel)
-                mtime, _size = get_mtime_and_size(ws, LFS)
+                mtime, _size = get_mtime_and_size(ws, LFS, ckw.get("ignore"))
                 ino = os.lstat(ws).st_ino
                 if single and os.path.islink(ws):
                     # (a symlinked single file: the token describes the link target, as the library computes it)
@@ -164,6 +190,45 @@ def one_exec(cfg):
     return viol, info
 
 
+def bulk_exec(kind, with_state):
+    """A directory of 1300 files (beyond every batching constant): checkout, checkout again, relink."""
+    from dvc_data.hashfile import load
+    from dvc_data.hashfile.checkout import checkout
+    from dvc_data.hashfile.state import State
+
+    from .. import ref
+    from ..lab import BULK, BULK_MD5, hi, put_raw
+
+    viol = []
+    with World() as w:
+        state = State(root_dir=w.root, tmp_dir=w.p("tmp")) if with_state else None
+        try:
+            odb = make_odb(kind, w.p("cache"), **({"state": state} if state is not None else {}))
+            lst = {f"f{i:04d}": BULK_MD5[c] for i, c in enumerate(BULK)}
+            for c, data in BULK.items():
+                put_raw(odb, BULK_MD5[c], data)
+            put_raw(odb, ref.tree_oid(lst), ref.tree_bytes(lst))
+            want = {f"f{i:04d}": BULK[c] for i, c in enumerate(BULK)}
+            ws = w.p("ws")
+            odb.cache_types = ["copy"]
+            for step, kw in (("first", {}), ("second", {}), ("relink", {"relink": True})):
+                if step == "relink":
+                    odb.cache_types = ["hardlink"]
+                try:
+                    r = checkout(ws, LFS, load(odb, hi(ref.tree_oid(lst))), odb, force=True, state=state, **kw)
+                except Exception as e:  # noqa: BLE001
+                    viol.append((f"bulk-checkout-raises-{type(e).__name__}/{step}", repr(e)[:300]))
+                    break
+                if walk_files(ws) != want:
+                    viol.append((f"bulk-checkout-not-exact/{step}", ""))
+                if step == "second" and r:
+                    viol.append(("bulk-second-checkout-reports-work", repr(r)))
+        finally:
+            if state is not None:
+                state.close()
+    return viol
+
+
 def run_case(case):
     res = {"n": 0, "trans": 0, "states": [], "outcomes": set(), "nontrivial": set(), "viol": [],
            "vac": {"relinked_to_hardlink": 0, "relinked_to_symlink": 0, "other_workspace_runs": 0,
@@ -173,9 +238,15 @@ def run_case(case):
     for l2 in L2S:
         for mut in MUTS:
             for other in OTHERS:
-                for st, l3 in [(a, b) for a in (False, True)
-                               for b in ([None] + (L1S if mut == "none" and other == "none" and l2 != "default" else []))]:
-                    cfg = dict(base, l2=l2, mut=mut, other=other, state=st, l3=l3)
+                runs = [(a, b, "plain") for a in (False, True)
+                        for b in ([None] + (L1S if mut == "none" and other == "none" and l2 != "default" else []))]
+                if other == "none" and mut in ("none", "edit-a-uncached") and base["t0"] in TREES:
+                    # the workspace spelled with a trailing separator; an ignore filter hiding user files
+                    runs += [(a, None, e) for a in (False, True) for e in ("trail", "ignore")]
+                for st, l3, env in runs:
+                    cfg = dict(base, l2=l2, mut=mut, other=other, state=st, l3=l3, env=env)
+                    if env != "plain":
+                        res["vac"]["spelling_or_ignore_runs"] = res["vac"].get("spelling_or_ignore_runs", 0) + 1
                     viol, info = one_exec(cfg)
                     res["n"] += 1
                     res["trans"] += 4 + (1 if l3 else 0)
@@ -197,6 +268,13 @@ def run_case(case):
                         if sig not in sigs:
                             sigs.add(sig)
                             res["viol"].append((sig, detail, cfg))
+    if base["t0"] == "A" and base["t1"] == "A" and base["l1"] == "copy":
+        for st in (False, True):
+            for sig, detail in bulk_exec(base["kind"], st):
+                res["viol"].append((sig, detail, {"bulk": True, "kind": base["kind"], "state": st}))
+            res["n"] += 1
+            res["trans"] += 3
+            res["vac"]["bulk_runs"] = res["vac"].get("bulk_runs", 0) + 1
     res["outcomes"] = sorted(res["outcomes"])
     res["nontrivial"] = sorted(res["nontrivial"])
     res["sample"] = dict(base, l2=L2S, mut=MUTS, other=OTHERS, state=[False, True])
@@ -204,6 +282,8 @@ def run_case(case):
 
 
 def replay(case):
+    if case.get("bulk"):
+        return bulk_exec(case["kind"], case["state"])
     return one_exec(case)[0]
 
 
@@ -224,7 +304,7 @@ def run(ctx):
         "default link type: reflink is unsupported on this file system, so the expected type is copy",
         "the link record is compared with a fresh get_mtime_and_size() of the resulting workspace",
     ]
-    ctx.require("relinked_to_hardlink", "relinked_to_symlink", "other_workspace_runs", "link_records_checked", "third_link_type_runs")
+    ctx.require("relinked_to_hardlink", "relinked_to_symlink", "other_workspace_runs", "link_records_checked", "third_link_type_runs", "spelling_or_ignore_runs", "bulk_runs")
     cs = []
     for kind in ("local", "base"):
         for t0, t1 in (("A", "A"), ("A", "B"), ("B", "A"), ("B", "B"), ("x", "x"), ("x", "y"), ("e", "x")):
